@@ -550,7 +550,7 @@ impl Monitor for C11 {
          a bare lax::Hypergraph. Deletion arguments are valid, duplicated, empty, all, or out of range (the latter run on a clone and must be rejected by a panic). After every step all public \
          fields are compared with a list-based shadow model replayed in lock-step and returned identifiers / renumberings with the model's. At the end of each history the diagram is serialised \
          with serde_json: the JSON value must equal the documented shape (sources, targets, hypergraph{nodes, edges, adjacency[{sources, targets}], quotient}, node ids as bare integers), \
-         must deserialise back to an equal diagram, and the documented shape must be readable. non-trivial = history with >=1 deletion after >=1 unify; distinct = hash of the step log."
+         must deserialise back to an equal diagram, and the documented shape must be readable. non-trivial = history with >=1 deletion after >=1 unify; distinct = hash of the step log. Also: hyperedge interfaces given as struct / pair of vectors / pair of slices, builder calls on the bare lax::Hypergraph, shorter / emptied / type-changing relabels, out-of-range identifiers at any position (just past the end, far past it, usize::MAX) for both deletion levels and the deprecated alias, the README's JSON example verbatim with enum label types, identifiers / hyperedge / bare hypergraph serialised on their own."
     }
     fn corpus_len(&self) -> u64 {
         5
